@@ -102,7 +102,8 @@ CLAIMED = {
             "is the joint of the path, and forward-filtering backward-sampling assigns every reachable path probability joint/marginal (induction over the sequence). "
             "Linear-Gaussian (partial): only the scalar one-step update is mechanised; kalman_filter / kalman_smoother / the log marginal likelihood are tied to an exact-rational "
             "recursion model and JUDGED case by case against dense joint-Gaussian conditioning (d_state, d_obs in 1..3, d_obs != d_state included, T <= 4); the step models "
-            "(discrete_hmm / linear_gaussian iterated) are covered by the GFI theorems only generically.",
+            "(discrete_hmm / linear_gaussian @gen functions) iterated over time through assess are compared with the HMM joint resp. the chain-rule Gaussian density (exact rationals) and their carry is checked; "
+            "long HMM sequences (T = 75-180) are compared in log space by the Interval tactic (theorem C20_iterative_forward_exact ties the vector recursion to the brute-force sum).",
             "Trusted: Coq kernel; hand models coq/Model/Hmm.v and coq/Model/Kalman.v (with the small matrix library coq/Model/Mat.v: Gauss-Jordan inverse/determinant over Q); "
             "harness/worker_ssm.py runs natively (no overlay), exponentiates float32 log outputs in float64 and records backward_sample's logits under scripted draws (jit disabled); "
             "the Kalman log marginal likelihood is checked through rational enclosures of exp with a literal enclosure of ln(2 pi); tolerance 2e-4. No axioms.",
